@@ -19,7 +19,6 @@ META = {
     "not_decided": [
         "that answers equal a reference map; anything inside lsm-tree (merge order, blob indirection, FIFO/leveled compaction)",
         "arithmetic mistakes (e.g. count += 2 in len), interaction of maintenance placement with reads",
-        "Keyspace::remove_weak journals WeakTombstone but applies tree.remove (doc-hidden experimental API whose result is documented as undefined after overwrites; not covered by the property)",
     ],
     "assumptions": ["lsm-tree implements an ordered map with MVCC reads at a seqno"],
 }
@@ -114,31 +113,7 @@ def run(ctx):
         vals = list(tables.values())
         same = all(v == vals[0] for v in vals)
         ctx.ob("R-C01.1", "<dispatch-siblings>", "three-dispatch-sites-agree", same, "batch commit, active replay and sealed replay use the same table %s" % vals[0] if same else "dispatch sites disagree: %s" % tables)
-    for fid, kind, leaf in (("keyspace::Keyspace::insert", "Value", "insert"), ("keyspace::Keyspace::remove", "Tombstone", "remove")):
-        fn = ctx.fn(fid, "R-C01.1")
-        if not fn:
-            continue
-        og = ctx.og(fn)
-        wr = R.call_blocks(fn, (R.WRITER + "::write_raw",))
-        ap = R.apply_blocks(fn)
-        ok = False
-        detail = "entry lacks write_raw or the tree apply"
-        if wr and ap:
-            wa = [og.of_operand(a) for a in fn.term(wr[0])["args"]]
-            aa = [og.of_operand(a) for a in fn.term(ap[0])["args"]]
-            kinds = A.variants_in(wa[4], "ValueType")
-            aleaf = A.cname(fn.term(ap[0])).rsplit("::", 1)[-1]
-            samekey = A.tkey(wa[2]) == A.tkey(aa[1])
-            sameval = True
-            if leaf == "insert":
-                sameval = A.tkey(wa[3]) == A.tkey(aa[2])
-            else:
-                # a tombstone is journaled with an empty value
-                sameval = not any(x.k == "param" for x in A.walk(wa[3]))
-            ok = kinds == {kind} and aleaf == leaf and samekey and sameval
-            detail = "journals ValueType::%s and applies tree.%s with the same key%s" % (kind, leaf, "/value" if leaf == "insert" else "") if ok else \
-                "journal kind %s vs apply %s; same key=%s same value=%s — what is recovered after a crash differs from what was applied" % (sorted(kinds), aleaf, samekey, sameval)
-        ctx.ob("R-C01.1", fn, "journal-kind-equals-apply-kind", ok, detail)
+    journal_kind_rules(ctx, "R-C01.1")
 
     # ---- R-C01.2 forwarding table
     ws = wrappers(F)
@@ -232,3 +207,33 @@ def run(ctx):
             rets2 = [x for x in fn.return_blocks() if x in r2] if not any(A.in_cycle(fn, a) for a in apply_) else []
             ctx.ob("R-C01.5", fn, "journaled-operation-is-applied", not rets2,
                    "after the append every success path applies the operation to the tree" if not rets2 else "the operation can be journaled and acknowledged without being applied to the tree", nontrivial=bool(rets2))
+
+
+def journal_kind_rules(ctx, rule):
+    """what a single write journals is what it applies (shared with C04: replay applies by the journaled kind)"""
+    for fid, kind, leaf in (("keyspace::Keyspace::insert", "Value", "insert"), ("keyspace::Keyspace::remove", "Tombstone", "remove"),
+                            ("keyspace::Keyspace::remove_weak", "WeakTombstone", "remove_weak")):
+        fn = ctx.fn(fid, rule)
+        if not fn:
+            continue
+        og = ctx.og(fn)
+        wr = R.call_blocks(fn, (R.WRITER + "::write_raw",))
+        ap = R.apply_blocks(fn)
+        ok = False
+        detail = "entry lacks write_raw or the tree apply"
+        if wr and ap:
+            wa = [og.of_operand(a) for a in fn.term(wr[0])["args"]]
+            aa = [og.of_operand(a) for a in fn.term(ap[0])["args"]]
+            kinds = A.variants_in(wa[4], "ValueType")
+            aleaf = A.cname(fn.term(ap[0])).rsplit("::", 1)[-1]
+            samekey = A.tkey(wa[2]) == A.tkey(aa[1])
+            sameval = True
+            if leaf == "insert":
+                sameval = A.tkey(wa[3]) == A.tkey(aa[2])
+            else:
+                # a tombstone is journaled with an empty value
+                sameval = not any(x.k == "param" for x in A.walk(wa[3]))
+            ok = kinds == {kind} and aleaf == leaf and samekey and sameval
+            detail = "journals ValueType::%s and applies tree.%s with the same key%s" % (kind, leaf, "/value" if leaf == "insert" else "") if ok else \
+                "journal kind %s vs apply %s; same key=%s same value=%s — what is recovered after a crash differs from what was applied" % (sorted(kinds), aleaf, samekey, sameval)
+        ctx.ob(rule, fn, "journal-kind-equals-apply-kind", ok, detail)
